@@ -149,6 +149,17 @@ class Terminologies(dict):
 
         :param url: location of an odML XML file.
         """
+        # Wait for loader threads that are still running; they would store
+        # documents that were read from the cache before the refresh.
+        with self._lock:
+            threads = list(self.loading.values())
+        for thread in threads:
+            thread.join()
+        with self._lock:
+            for thread in threads:
+                for curr_url in [key for key, val in self.loading.items() if val is thread]:
+                    self.loading.pop(curr_url, None)
+
         self.reload_cache = True
         self.clear()
         self.load(url)
